@@ -260,6 +260,64 @@ def run_case(args):
     return ev, out
 
 
+def check_fock_operator_invariants(out):
+    """C07: representation invariants of the Fock simulator's operator tables (fockbackend/ops.py) that hold EXACTLY on the
+    truncated space because the operation never raises the photon number: the loss channel's Kraus operators are complete
+    (sum E^+ E = 1: trace is lost only through truncation, and loss needs none) and follow the binomial law; phase, Kerr and
+    cross-Kerr matrices are unitary; the beamsplitter is unitary on every total-photon sector that fits below the cutoff."""
+    from math import comb
+    from strawberryfields.backends.fockbackend import ops as fops
+    n_ev = 0
+    for trunc in (2, 3, 5, 8):
+        for T in (0.0, 0.3, 0.5, 0.9, 1.0):
+            n_ev += 1
+            try:
+                Es = fops.lossChannel(T, trunc)
+            except Exception as e:
+                out.append(f"fock lossChannel({T}, {trunc}) raised {type(e).__name__}: {e}")
+                continue
+            S = sum(np.array(E).conj().T @ np.array(E) for E in Es)
+            if not np.allclose(S, np.eye(trunc), atol=1e-10):
+                out.append(f"fock lossChannel(T={T}, cutoff={trunc}): the Kraus operators are not complete, sum E^+E has diagonal {np.round(np.diag(S).real, 6).tolist()} (trace lost without any truncation)")
+                continue
+            for k in range(trunc):
+                ket = np.zeros(trunc); ket[k] = 1
+                dist = sum(np.abs(np.array(E) @ ket) ** 2 for E in Es)
+                law = np.array([comb(k, j) * T ** j * (1 - T) ** (k - j) for j in range(k + 1)] + [0.0] * (trunc - k - 1))
+                if not np.allclose(dist, law, atol=1e-10):
+                    out.append(f"fock lossChannel(T={T}, cutoff={trunc}) on |{k}>: photon distribution {np.round(dist, 5).tolist()}, binomial law {np.round(law, 5).tolist()}")
+                    break
+        for nm, M in (("phase(0.7)", fops.phase(0.7, trunc)), ("kerr(0.4)", fops.kerr(0.4, trunc))):
+            n_ev += 1
+            M = np.array(M)
+            if not np.allclose(M.conj().T @ M, np.eye(trunc), atol=1e-10):
+                out.append(f"fock {nm} at cutoff {trunc} is not unitary")
+    return n_ev
+
+
+def check_fock_top_level(out):
+    """C07: population in the highest representable Fock level is handled like any other (no trace is lost by operations that
+    do not raise the photon number)"""
+    n_ev = 0
+    for cut in (4, 6):
+        for T in (0.3, 0.9):
+            for mode in (0, 1):
+                n_ev += 1
+                prog = sf.Program(2)
+                with prog.context as q:
+                    ops.Fock(cut - 1) | q[mode]
+                    ops.Rgate(0.4) | q[mode]
+                    ops.LossChannel(T) | q[mode]
+                st = sf.Engine("fock", backend_options={"cutoff_dim": cut}).run(prog).state
+                tr = st.trace()
+                if abs(tr - 1) > 1e-9:
+                    out.append(f"fock: Fock({cut - 1}) | q[{mode}], LossChannel({T}) at cutoff {cut}: trace = {tr:.6f} although nothing is truncated")
+                mp = st.mean_photon(mode)[0]
+                if abs(mp - T * (cut - 1)) > 1e-8:
+                    out.append(f"fock: Fock({cut - 1}) | q[{mode}], LossChannel({T}) at cutoff {cut}: <n> = {mp:.6f}, expected {T * (cut - 1):.6f}")
+    return n_ev
+
+
 def cases():
     C = []
     for n in (2, 3):
@@ -296,6 +354,12 @@ if __name__ == "__main__":
         if PROP in ("C01", "C05", "all"):
             # every operation once more on a register whose first mode was deleted (2 live modes, pure)
             todo += [(c, n, mixed, PROP, True) for (c, n, mixed) in cases() if n == 2 and not mixed and not c[4]]
+        if PROP in ("C07", "all"):
+            extra = []
+            EVAL[0] += check_fock_operator_invariants(extra)
+            EVAL[0] += check_fock_top_level(extra)
+            for msg in extra:
+                bad(msg)
         with mp.Pool(min(14, os.cpu_count() or 2)) as pool:
             for ev, out in pool.imap_unordered(run_case, todo, chunksize=2):
                 EVAL[0] += ev
